@@ -1,7 +1,7 @@
 #!/usr/bin/env python3
 """Writes one prompt per property for a seeding sub-agent (only the property text
 and the path of its own scratch worktree), as used for the two rounds recorded
-in DESIGN.md 8.4.  usage: mk_seed_prompts.py <outdir> [round2|round3]"""
+in DESIGN.md 8.4.  usage: mk_seed_prompts.py <outdir> [round2|round3|round4]"""
 import json, sys
 out = sys.argv[1]
 tmpl = open('/verif/tools/seed_prompt.tmpl').read().replace('/tmp/seed/', out.rstrip('/') + '/')
@@ -15,6 +15,12 @@ ADDITIONAL CONSTRAINT (third, independent round): two earlier rounds have alread
 '''
 if len(sys.argv) > 2 and sys.argv[2] == 'round3':
     extra = extra3
+extra4 = '''
+
+ADDITIONAL CONSTRAINT (fourth, independent round): three earlier rounds produced changes in the most obvious places for this property (the functions named in its anchors). First split the property statement into its separate clauses (each 'and', each quantified dimension, each option it names) and pick the clause you judge LEAST likely to have been targeted yet; then put the change in code that is NOT named in the anchors but still decides that clause - for example a helper, a builder/configuration path (crates/core/flags/*, hiargs.rs, haystack.rs, a *Builder), a different printer (summary.rs, json.rs), searcher/lines.rs or line_buffer.rs, ignore/{types,overrides,gitignore,pathutil}.rs, globset/{glob,pathutil}.rs, cli/{decompress,pattern,escape}.rs, matcher/interpolate.rs. Keep it a clean semantic violation (a wrong result a user could observe) with a deterministic demo; automated differential checkers with random inputs and flag combinations exist, so prefer something that needs a specific combination or value.
+'''
+if len(sys.argv) > 2 and sys.argv[2] == 'round4':
+    extra = extra4
 for line in open('/verif/properties.jsonl'):
     p = json.loads(line)
     open('%s/%s.prompt.txt' % (out, p['id']), 'w').write(
